@@ -3,7 +3,7 @@
 //! Exhaustive enumeration of brace lists (<= 3 distinct names from {A, B, S, U, _Default} in
 //! every order) and plain targets x levels x specifications x module paths on a real Logger
 //! whose additional writers are a recording LogWriter (A), a FileLogWriter with max_level Warn
-//! (B) and a SyslogWriter with max_log_level Warn on a unix datagram socket (S); plus the full
+//! (B; later: ceilings Warn/Debug/Error by unit) and a SyslogWriter with max_log_level Warn (later: Warn/Error/Debug/Info by unit) on a unix datagram socket (S); plus the full
 //! Duplicate grid for stderr x stdout, at build time and through adapt_duplication_to_*.
 use super::{default_cap, Prop};
 use crate::capture::FdCapture;
@@ -304,6 +304,9 @@ fn drain_socket(s: &UnixDatagram) -> Vec<String> {
 /// is judged by the record's module path.
 fn routing(spec_idx: usize, file_primary: bool, with_writers: bool) -> Result<(u64, u64), Fail> {
     let spec = specs()[spec_idx].clone();
+    // the ceilings of the file writer and of the syslog writer vary with the unit
+    let ceil_b = [LevelFilter::Warn, LevelFilter::Debug, LevelFilter::Error][spec_idx % 3];
+    let ceil_s = [LevelFilter::Warn, LevelFilter::Error, LevelFilter::Debug, LevelFilter::Info][spec_idx % 4];
     let sc = Scratch::new("c13");
     let err = crate::scratch::root().join("err.log");
     std::fs::write(&err, b"").ok();
@@ -319,7 +322,7 @@ fn routing(spec_idx: usize, file_primary: bool, with_writers: bool) -> Result<(u
     let b_path = sc.path().join("bdir");
     let b = FileLogWriter::builder(FileSpec::default().directory(&b_path).basename("b").suppress_timestamp())
         .format(lg::payload_format)
-        .max_level(LevelFilter::Warn)
+        .max_level(ceil_b)
         .try_build()
         .map_err(|e| Fail {
             clause: "machinery",
@@ -335,7 +338,7 @@ fn routing(spec_idx: usize, file_primary: bool, with_writers: bool) -> Result<(u
         SyslogLineHeader::Rfc3164,
         SyslogFacility::LocalUse0,
     )
-    .max_log_level(LevelFilter::Warn)
+    .max_log_level(ceil_s)
     .format(lg::payload_format)
     .build()
     .map_err(|e| Fail {
@@ -386,8 +389,8 @@ fn routing(spec_idx: usize, file_primary: bool, with_writers: bool) -> Result<(u
                 let got_e = lg::read_errchan(&err).len() - e0;
                 let named = |n: &str| list.as_ref().is_some_and(|l| l.iter().any(|i| NAMES[*i] == n));
                 let want_a = usize::from(with_writers && named("A"));
-                let want_b = usize::from(with_writers && named("B") && level <= Level::Warn);
-                let want_s = usize::from(with_writers && named("S") && level <= Level::Warn);
+                let want_b = usize::from(with_writers && named("B") && level <= ceil_b);
+                let want_s = usize::from(with_writers && named("S") && level <= ceil_s);
                 let want_p = usize::from(match list {
                     Some(_) => named("_Default") && spec.enabled(level, mp.unwrap_or("")),
                     None => spec.enabled(level, target),
@@ -402,7 +405,7 @@ fn routing(spec_idx: usize, file_primary: bool, with_writers: bool) -> Result<(u
                     Some(l) => format!("list{}{}{}", l.len().min(3), if named("U") { "+unknown" } else { "" }, if with_writers { "" } else { "/no-additional-writers" }),
                 };
                 let ctx = format!("spec `{}` primary={kind} target={target:?} level={level} module_path={mp:?}", spec.text());
-                for (who, got, want, ceiling) in [("custom", got_a, want_a, LevelFilter::Trace), ("file", got_b, want_b, LevelFilter::Warn), ("syslog", got_s, want_s, LevelFilter::Warn)] {
+                for (who, got, want, ceiling) in [("custom", got_a, want_a, LevelFilter::Trace), ("file", got_b, want_b, ceil_b), ("syslog", got_s, want_s, ceil_s)] {
                     if got != want {
                         let is_named = match who {
                             "custom" => named("A"),
@@ -453,57 +456,63 @@ fn count_lines(b: &[u8]) -> usize {
     b.iter().filter(|x| **x == b'\n').count()
 }
 
-/// stderr setting fixed at build time, all stdout settings, all levels.
+/// stderr setting fixed at build time, all stdout settings, all levels; with a primary writer that
+/// takes everything, with one whose own ceiling is Info (duplication does not depend on what the
+/// primary output accepts), with `do_not_log()` (documented: duplicates only), and each in the
+/// write modes Direct and SupportCapture (the latter formats into a scratch buffer per stream).
 fn duplication_build(d_err: Duplicate) -> Result<u64, Fail> {
     let sc = Scratch::new("c13d");
     let mut n = 0;
-    for d_out in DUPS {
-        let rec = Recorder::new(LevelFilter::Trace);
-        let (logger, handle) = Logger::with(flexi_logger::LogSpecification::trace())
-            .format(lg::payload_format)
-            .log_to_writer(Box::new(rec.clone()))
-            .duplicate_to_stderr(d_err)
-            .duplicate_to_stdout(d_out)
-            .error_channel(ErrorChannel::DevNull)
-            .build()
-            .map_err(|e| Fail {
+    for (prim, mode) in [(0, false), (1, false), (2, false), (0, true), (2, true)] {
+        let ceiling = if prim == 1 { LevelFilter::Info } else { LevelFilter::Trace };
+        let variant = format!("{}{}", ["primary-takes-all", "primary-ceiling-info", "do_not_log"][prim], if mode { "/support-capture" } else { "" });
+        for d_out in DUPS {
+            let rec = Recorder::new(ceiling);
+            let mut lb = Logger::with(flexi_logger::LogSpecification::trace()).format(lg::payload_format);
+            lb = if prim == 2 { lb.do_not_log() } else { lb.log_to_writer(Box::new(rec.clone())) };
+            if mode {
+                lb = lb.write_mode(flexi_logger::WriteMode::SupportCapture);
+            }
+            let (logger, handle) = lb.duplicate_to_stderr(d_err).duplicate_to_stdout(d_out).error_channel(ErrorChannel::DevNull).build().map_err(|e| Fail {
                 clause: "machinery",
                 cause: "build".into(),
                 detail: e.to_string(),
             })?;
-        for level in LEVELS {
-            n += 1;
-            let ce = FdCapture::start(2, sc.path().join("err.txt"));
-            let co = FdCapture::start(1, sc.path().join("out.txt"));
-            lg::log_to(&*logger, level, "m", "dupmsg");
-            let out = co.map(FdCapture::finish).unwrap_or_default();
-            let errb = ce.map(FdCapture::finish).unwrap_or_default();
-            let (ge, go) = (count_lines(&errb), count_lines(&out));
-            let (we, wo) = (usize::from(dup_admits(d_err, level)), usize::from(dup_admits(d_out, level)));
-            if rec.take().len() != 1 {
-                return Err(Fail {
-                    clause: "default-wrong",
-                    cause: "dup/primary".into(),
-                    detail: format!("duplicate_to_stderr({d_err:?}) duplicate_to_stdout({d_out:?}) level {level}: primary writer did not get exactly one record"),
-                });
+            for level in LEVELS {
+                n += 1;
+                let ce = FdCapture::start(2, sc.path().join("err.txt"));
+                let co = FdCapture::start(1, sc.path().join("out.txt"));
+                lg::log_to(&*logger, level, "m", "dupmsg");
+                let out = co.map(FdCapture::finish).unwrap_or_default();
+                let errb = ce.map(FdCapture::finish).unwrap_or_default();
+                let (ge, go) = (count_lines(&errb), count_lines(&out));
+                let (we, wo) = (usize::from(dup_admits(d_err, level)), usize::from(dup_admits(d_out, level)));
+                let wp = usize::from(prim != 2 && level <= ceiling);
+                if rec.take().len() != wp {
+                    return Err(Fail {
+                        clause: "default-wrong",
+                        cause: "dup/primary".into(),
+                        detail: format!("[{variant}] duplicate_to_stderr({d_err:?}) duplicate_to_stdout({d_out:?}) level {level}: primary writer did not get exactly {wp} record(s)"),
+                    });
+                }
+                if ge != we || go != wo {
+                    return Err(Fail {
+                        clause: "dup-wrong",
+                        cause: format!("{}/build-time{}", if ge != we { "stderr" } else { "stdout" }, if prim == 0 && !mode { String::new() } else { format!("/{variant}") }),
+                        detail: format!("[{variant}] duplicate_to_stderr({d_err:?}) duplicate_to_stdout({d_out:?}) level {level}: {ge} line(s) on stderr (expected {we}), {go} on stdout (expected {wo})"),
+                    });
+                }
+                if (ge == 1 && errb != b"dupmsg\n") || (go == 1 && out != b"dupmsg\n") {
+                    return Err(Fail {
+                        clause: "dup-wrong",
+                        cause: if mode { "content/support-capture".into() } else { "content".into() },
+                        detail: format!("[{variant}] duplicate_to_stderr({d_err:?}) duplicate_to_stdout({d_out:?}) level {level}: duplicate content: stderr {:?} stdout {:?}", String::from_utf8_lossy(&errb), String::from_utf8_lossy(&out)),
+                    });
+                }
             }
-            if ge != we || go != wo {
-                return Err(Fail {
-                    clause: "dup-wrong",
-                    cause: format!("{}/build-time", if ge != we { "stderr" } else { "stdout" }),
-                    detail: format!("duplicate_to_stderr({d_err:?}) duplicate_to_stdout({d_out:?}) level {level}: {ge} line(s) on stderr (expected {we}), {go} on stdout (expected {wo})"),
-                });
-            }
-            if (ge == 1 && errb != b"dupmsg\n") || (go == 1 && out != b"dupmsg\n") {
-                return Err(Fail {
-                    clause: "dup-wrong",
-                    cause: "content".into(),
-                    detail: format!("duplicate content: stderr {:?} stdout {:?}", String::from_utf8_lossy(&errb), String::from_utf8_lossy(&out)),
-                });
-            }
+            drop(handle);
+            drop(logger);
         }
-        drop(handle);
-        drop(logger);
     }
     Ok(n)
 }
